@@ -89,17 +89,83 @@ structure DL where
 inductive DEv
   | fire        -- the deadline timer fires
   | set         -- SetDeadline / SetReadDeadline / SetWriteDeadline (any value): clears the expired flag
+  | setPast     -- … with a time that has already passed: the flag is cleared and the timer fires at once
   | callBegin   -- Read / Write takes the mutex
   | callEnd
   deriving Repr, DecidableEq
 
+def dfire (s : DL) : DL := if s.active then { s with closed := true } else { s with expired := true }
+
 def dstep (s : DL) : DEv → DL
-  | .fire => if s.active then { s with closed := true } else { s with expired := true }
+  | .fire => dfire s
   | .set => { s with expired := false }
+  | .setPast => dfire { s with expired := false }
   | .callBegin => { s with active := true }
   | .callEnd => { s with active := false }
 
 /-- result of starting a call in state `s`: `false` = fails with a deadline error before touching the connection. -/
 def callAllowed (s : DL) : Bool := !s.expired
+
+/-! ### deadline programs: both directions of one adapter, deadlines set before, between and during calls -/
+
+inductive Side | r | w
+  deriving Repr, DecidableEq
+
+/-- one step of a client program on the adapter. `blockedPast sd`: a Read / Write is started that blocks
+inside the connection (nothing to read / a peer that does not read) and, while it is blocked, the
+deadline of that side is set to a time in the past. `SetDeadline` is the two per-side events in a row. -/
+inductive PEv
+  | setZero (sd : Side)
+  | setFuture (sd : Side)      -- far enough in the future not to fire during the program
+  | setPast (sd : Side)        -- while no call of that side is active
+  | call (sd : Side)           -- a call that can complete at once (data is there / the peer reads)
+  | blockedPast (sd : Side)
+  deriving Repr, DecidableEq
+
+inductive CallRes | ok | deadline | fail
+  deriving Repr, DecidableEq
+
+/-- the two deadline states share the connection. -/
+structure DL2 where
+  r : DL
+  w : DL
+  deriving Repr, DecidableEq
+
+def DL2.init : DL2 := ⟨⟨false, false, false⟩, ⟨false, false, false⟩⟩
+
+def DL2.get (s : DL2) : Side → DL
+  | .r => s.r
+  | .w => s.w
+
+/-- write back one side; a closed connection is closed for both. -/
+def DL2.put (s : DL2) (sd : Side) (d : DL) : DL2 :=
+  match sd with
+  | .r => ⟨d, { s.w with closed := s.w.closed || d.closed }⟩
+  | .w => ⟨{ s.r with closed := s.r.closed || d.closed }, d⟩
+
+def DL2.closed (s : DL2) : Bool := s.r.closed || s.w.closed
+
+/-- what a call started in state `d` returns when nothing else happens during it. -/
+def callRes (d : DL) : CallRes :=
+  if d.expired then .deadline else if d.closed then .fail else .ok
+
+def pstep (s : DL2) : PEv → DL2 × Option CallRes
+  | .setZero sd | .setFuture sd => (s.put sd (dstep (s.get sd) .set), none)
+  | .setPast sd => (s.put sd (dstep (s.get sd) .setPast), none)
+  | .call sd => (s, some (callRes (s.get sd)))
+  | .blockedPast sd =>
+    match callRes (s.get sd) with
+    | .ok =>      -- the call is inside the connection when the past deadline arrives
+      let d := dstep (dstep (dstep (s.get sd) .callBegin) .setPast) .callEnd
+      (s.put sd d, some .fail)
+    | res =>      -- the call returned at once; the deadline is then set while idle
+      (s.put sd (dstep (s.get sd) .setPast), some res)
+
+def prun : List PEv → DL2 → DL2 × List CallRes
+  | [], s => (s, [])
+  | e :: es, s =>
+    let (s1, o) := pstep s e
+    let (s2, os) := prun es s1
+    (s2, o.toList ++ os)
 
 end WS.Model.NetConn
